@@ -55,7 +55,12 @@ def install_openai(I, prog, env, replies, log):
         v = env.get(n)
         return Ok(SString(tuple(v), I2.new_alloc())) if v is not None else Err(Opaque('VarError'))
     st['var'] = var
-    st['OpenAIConfig::new'] = lambda I2, a, ci, dt: Struct('OpenAIConfig', (None, None))
+    # async-openai's documented default: endpoint OPENAI_API_BASE, key from OPENAI_API_KEY (or empty)
+    def cfg_new(I2, a, ci, dt):
+        k = env.get(b'OPENAI_API_KEY')
+        return Struct('OpenAIConfig', (SString(tuple(DEFAULT_BASE), I2.new_alloc()), SString(tuple(k or ()), I2.new_alloc())))
+    st['OpenAIConfig::new'] = cfg_new
+    st['OpenAIConfig::default'] = cfg_new
     st['OpenAIConfig::with_api_base'] = lambda I2, a, ci, dt: Struct('OpenAIConfig', (a[1], a[0].f[1]))
     st['OpenAIConfig::with_api_key'] = lambda I2, a, ci, dt: Struct('OpenAIConfig', (a[0].f[0], a[1]))
     st['Client::with_config'] = lambda I2, a, ci, dt: Struct('Client', (a[0],))
@@ -189,6 +194,8 @@ def run_task(task):
             env[b'BLOCKWATCH_AI_API_KEY'] = tuple(I.fresh_byte('key%d' % i, tuple(b'ks-')) for i in range(2))
         else:
             env[b'BLOCKWATCH_AI_API_KEY'] = None if task.get('key_unset', True) else ()
+        if task.get('foreign_key'):
+            env[b'OPENAI_API_KEY'] = tuple(b'sk')          # a key meant for another provider is in the environment
         env[b'BLOCKWATCH_AI_MODEL'] = tuple(I.fresh_byte('mod%d' % i, tuple(b'mg4')) for i in range(2)) if task['model_env'] else None
         env[b'BLOCKWATCH_AI_API_URL'] = tuple(b'http://h/') + tuple(I.fresh_byte('url%d' % i, tuple(b'uv1')) for i in range(1)) if task['url_env'] else None
         blocks = []
@@ -213,7 +220,11 @@ def run_task(task):
                     info['cond'] = tuple(cond)
                     info['tag'] = tag
                     rk, rl = bs['reply']
-                    if rk == 'text':
+                    if rk == 'lit':
+                        rk, txt = 'text', tuple(rl.encode())
+                        replies[tag] = ('text', txt)
+                        info['reply'] = ('text', txt)
+                    elif rk == 'text':
                         txt = tuple(I.fresh_byte('%s_r%d' % (name, i), REPLY_ALPHA) for i in range(rl))
                         replies[tag] = ('text', txt)
                         info['reply'] = ('text', txt)
@@ -231,7 +242,12 @@ def run_task(task):
             files.append((('f%d.py' % fi).encode(), tuple(src), bwcs))
         ctx = mk_context(prog, I, files)
         install_openai(I, prog, env, replies, log)
-        I.task_order = lambda n, step: I.concretize(I.fresh_int('ord%d_%d' % (step, n), 0, n - 1), 'task order') if n > 1 else 0
+        if task.get('order') == 'first':          # many tasks: a fixed completion order instead of all n! of them
+            I.task_order = lambda n, step: 0
+        elif task.get('order') == 'last':
+            I.task_order = lambda n, step: n - 1
+        else:
+            I.task_order = lambda n, step: I.concretize(I.fresh_int('ord%d_%d' % (step, n), 0, n - 1), 'task order') if n > 1 else 0
         holder.update(blocks=blocks, log=log, env=env, files=files)
         client = I.call_fn(f_env, [])
         validator = I.call_fn(f_with, [client])
@@ -255,6 +271,8 @@ def run_task(task):
 
     def witness(m):
         w = dict(files={}, env={}, blocks=[])
+        if task.get('order'):
+            w['slow_ok'] = 0.6      # many requests in flight: let the faulty one finish while the others are pending
         for path, src, _b in holder['files']:
             w['files'][path.decode()] = model_bytes(m, src).decode('latin1')
         for k, v in holder['env'].items():
@@ -374,9 +392,10 @@ class FakeEndpoint:
     """Loopback chat-completions endpoint: replies per block (matched on the condition in the user
     message), `default` for everything else.  Use as a context manager; .port, .requests."""
 
-    def __init__(self, blocks, default=('err',)):
+    def __init__(self, blocks, default=('err',), slow_ok=0.0):
         import http.server
         import socketserver
+        import time as _time
         reqs = self.requests = []
 
         class H(http.server.BaseHTTPRequestHandler):
@@ -400,6 +419,8 @@ class FakeEndpoint:
                 for b in blocks:
                     if isinstance(user, str) and user.startswith('CONDITION:\n' + b['cond'] + '\n\n'):
                         spec = tuple(b['reply'])
+                if spec[0] != 'err' and slow_ok:
+                    _time.sleep(slow_ok)        # faults come back at once, healthy replies take their time
                 if spec[0] == 'err':
                     self.send_response(400)
                     out = b'{"error": {"message": "bad", "type": "invalid_request_error", "param": null, "code": null}}'
@@ -419,6 +440,7 @@ class FakeEndpoint:
         class TS(socketserver.ThreadingMixIn, socketserver.TCPServer):
             allow_reuse_address = True
             daemon_threads = True
+            request_queue_size = 128
         self.srv = TS(('127.0.0.1', 0), H)
         self.port = self.srv.server_address[1]
 
@@ -433,7 +455,7 @@ class FakeEndpoint:
 
 def run_real(binary, w):
     """Runs the real binary on the witness with a loopback fake endpoint; returns dict(code, diags, requests)."""
-    ep = FakeEndpoint(w['blocks'])
+    ep = FakeEndpoint(w['blocks'], slow_ok=w.get('slow_ok', 0.0))
     ep.__enter__()
     reqs = ep.requests
     port = ep.port
@@ -453,6 +475,8 @@ def run_real(binary, w):
             env['BLOCKWATCH_AI_API_KEY'] = w['env']['BLOCKWATCH_AI_API_KEY']
         if w['env'].get('BLOCKWATCH_AI_MODEL') is not None:
             env['BLOCKWATCH_AI_MODEL'] = w['env']['BLOCKWATCH_AI_MODEL']
+        if w['env'].get('OPENAI_API_KEY') is not None:
+            env['OPENAI_API_KEY'] = w['env']['OPENAI_API_KEY']
         r = run_blockwatch(binary, d, ['**'], stdin=b'', env_extra=env, timeout=60)
     finally:
         ep.__exit__()
@@ -559,6 +583,8 @@ def tasks_for(tier):
         T.append(dict(files=[[B(reply=r, lead=1, trail=1)]], key=True, model_env=False, url_env=False))
     T.append(dict(files=[[B()]], key=False, model_env=False, url_env=False))
     T.append(dict(files=[[B()]], key=False, key_unset=False, model_env=False, url_env=False))
+    T.append(dict(files=[[B()]], key=False, foreign_key=True, model_env=False, url_env=True))
+    T.append(dict(files=[[B()]], key=True, foreign_key=True, model_env=False, url_env=False))
     T.append(dict(files=[[B(cond_len=2, core=3)]], key=True, model_env=True, url_env=True))
     # content selection: pattern forms (value group, whole match, match reaching the edges, no match) and blank content
     for pat in ('group', 'plain'):
@@ -578,6 +604,14 @@ def tasks_for(tier):
             rs[pos] = fault
             T.append(dict(files=[[B(reply=rs[0]), B(reply=rs[1])], [B(reply=rs[2])]], key=True, model_env=False, url_env=False))
     T.append(dict(files=[[B(reply=('text', 2)), B(reply=('text', 3))], [B(reply=('text', 2))]], key=True, model_env=False, url_env=True))
+    # many blocks (more than any plausible in-flight limit), a fault on the first / a middle / the last one,
+    # two fixed completion orders (oldest first, newest first)
+    for n, bad in ((10, 0), (10, 9), (12, 5)):
+        for order in ('first', 'last'):
+            blocks = [B(reply=('lit', 'OK' if i % 2 else 'no'), cond_len=0) for i in range(n)]
+            blocks[bad] = B(reply=('err', 0), cond_len=0)
+            T.append(dict(files=[blocks], key=True, model_env=False, url_env=False, order=order))
+    T.append(dict(files=[[B(reply=('lit', 'OK' if i % 3 else 'bad'), cond_len=0) for i in range(10)]], key=True, model_env=False, url_env=False, order='first'))
     if tier == 'thorough':
         for rs in itertools.product([('text', 2), ('text', 3), ('err', 0)], repeat=3):
             T.append(dict(files=[[B(reply=rs[0], core=3, cond_len=2), B(reply=rs[1], trail=2)], [B(ai=False), B(reply=rs[2], lead=2)]], key=True, model_env=True, url_env=True))
@@ -644,7 +678,7 @@ def main(tier):
             msg = 'real %s vs expected %s on %s' % (r['observed'], r['expected'], json.dumps(s)[:400])
             agg.validation_failures.append(msg)
             agg.engine_errors.append({'engine_error': 'translator validation: ' + msg})
-    bounds = dict(tasks=len(tasks), blocks='1..3 check-ai blocks (4 thorough) over 1..2 files, optional plain block between',
+    bounds = dict(tasks=len(tasks), blocks='1..3 check-ai blocks (4 thorough) over 1..2 files, optional plain block between, every completion order; plus 10-12 blocks with one fault under two fixed completion orders',
                   symbolic='condition 2-3 bytes over [x space " \\ LF] after a tag letter; content 0-3 bytes over [y space dquote squote backslash] with 0-2 blanks (space, tab, LF) around; reply text 1-4 bytes over [OoKk.x space]; model 2 bytes; URL suffix 1 byte; key 2 bytes',
                   completion_orders='all (task order is a forked choice at every join)')
     return finish(
